@@ -35,7 +35,7 @@ def np_summaries(record):
         b = dict(zip(names, args))
         b.update(kw)
         record.append(b)
-        return {"x": Tok("xhat")}
+        return {"x": Tok("xhat"), "fun": 1.5, "jac": NumArr([0.0, 0.0, 0.0]), "success": True, "status": 0, "message": "ok", "nit": 3, "nfev": 4}
     import math as _m
     num = lambda f: (lambda v: f(v) if isinstance(v, (int, float)) and not isinstance(v, bool) else (_ for _ in ()).throw(Undecided("numeric predicate on %r" % (v,))))
     s = dict(num_summaries())
@@ -57,6 +57,78 @@ def _rows(bounds):
     return None
 
 
+def _check_objective(repo, res, f):
+    """what the optimiser is given to minimise, probed by value: with the loss object's cost a known function (positive, negative or tiny
+    at the start) the recorded `fun` must order parameter vectors as the cost does and `jac` must be the gradient of `fun` - an optimiser
+    that descends `fun` then descends the cost (the repo-owned half of "never returns something worse than its start")"""
+    target = [1.0, 2.0, 3.0]
+    x0 = [1.5, 2.5, 2.0]
+    problems, n = [], 0
+    for label, offset, scale_ in (("positive cost at the start", 4.0, 1.0), ("negative cost at the start (a log-likelihood)", -60.0, 1.0), ("tiny cost at the start", 0.0, 1e-9),
+                                  ("zero cost at the start", 0.0, 0.0)):
+        def cost_of(th, _o=offset, _s=scale_):
+            v = [float(t) for t in (th.tolist() if isinstance(th, NumArr) else th)]
+            base = sum((a - b) ** 2 for a, b in zip(v, target))
+            if _s == 0.0:
+                base = base - sum((a - b) ** 2 for a, b in zip(x0, target))      # exactly 0 at the start, positive / negative elsewhere
+                return base
+            return _o + base * (_s if _s != 1.0 else 1.0)
+
+        def grad_of(th, _s=scale_):
+            v = [float(t) for t in (th.tolist() if isinstance(th, NumArr) else th)]
+            k = 1.0 if _s in (0.0, 1.0) else _s
+            return NumArr([2 * k * (a - b) for a, b in zip(v, target)])
+        rec = []
+        summ = np_summaries(rec)
+        summ.pop("zip")
+        summ.update({"Loss.cost": lambda me_, theta=None, *a, **k: cost_of(theta if theta is not None else x0),
+                     "Loss.sensitivity": lambda me_, theta=None, *a, **k: grad_of(theta if theta is not None else x0),
+                     "Loss.gradient": lambda me_, theta=None, *a, **k: grad_of(theta if theta is not None else x0),
+                     "Loss.thetaCallBack": lambda me_, *a, **k: None})
+        me = Obj("Loss")
+        ab = Abs({}, {"np.ndarray": lambda v: isinstance(v, NumArr)}, summ, me)
+        try:
+            kind, out = ab.run_function(f.node, {"x": list(x0), "lb": [0.0, 0.0, 0.0], "ub": [5.0, 5.0, 5.0], "A": None, "b": None, "disp": False, "full_output": False})
+            if kind != "return" or len(rec) != 1:
+                problems.append("%s: fit %s and calls the optimiser %d time(s) (%s)" % (label, kind, len(rec), out if kind != "return" else ""))
+                n += 1
+                continue
+            fun, jac = rec[0].get("fun"), rec[0].get("jac")
+            probes = [[1.0, 2.0, 3.0], [1.2, 2.1, 2.9], [1.5, 2.5, 2.0], [3.0, 0.5, 4.5]]
+            fv = [ab.apply(fun, [NumArr(list(p))], {}) for p in probes]
+            jv = [ab.apply(jac, [NumArr(list(p))], {}) for p in probes] if jac not in (None, True, False) else None
+        except Undecided as e:
+            res.undecided("R-WIRE", f, "objective", "outside the modelled subset (%s): %s" % (label, e))
+            return
+        except Raised as r:
+            problems.append("%s: evaluating what the optimiser was given raises %s" % (label, r.exc))
+            n += 1
+            continue
+        n += 1
+        cv = [cost_of(p) for p in probes]
+        if not all(isinstance(v, (int, float)) and not isinstance(v, bool) and v == v for v in fv):
+            problems.append("%s: the objective handed to the optimiser returns %r" % (label, fv))
+            continue
+        # same order as the cost (strictly, on probes with distinct costs)
+        bad_order = [(i, j) for i in range(len(probes)) for j in range(len(probes)) if cv[i] < cv[j] - 1e-12 and not fv[i] < fv[j]]
+        if bad_order:
+            i, j = bad_order[0]
+            problems.append("%s: cost(%s) = %.6g < cost(%s) = %.6g but the objective handed to the optimiser gives %.6g and %.6g - minimising it does not minimise the cost"
+                            % (label, probes[i], cv[i], probes[j], cv[j], fv[i], fv[j]))
+            continue
+        if jv is not None:
+            # jac is the gradient of fun: fun = s*cost + c with s > 0 on these probes, so jac = s*grad
+            s_ = (fv[3] - fv[0]) / (cv[3] - cv[0])
+            for p, g in zip(probes, jv):
+                gl = g.tolist() if isinstance(g, NumArr) else g
+                want = [s_ * v for v in grad_of(p).tolist()]
+                if not (isinstance(gl, list) and len(gl) == 3 and all(abs(a - b) <= 1e-9 * max(1.0, abs(b)) for a, b in zip(gl, want))):
+                    problems.append("%s: the gradient handed to the optimiser at %s is %s, the gradient of its objective is %s" % (label, p, gl, want))
+                    break
+    res.check(not problems, "R-WIRE", f, "objective", "%d cost landscapes (positive, negative, tiny, zero at the start): the objective handed to the optimiser orders parameter vectors as the "
+              "cost does and its gradient is the gradient of that objective" % n, "; ".join(problems[:2]), node=f.node)
+
+
 def check(repo, res, tier):
     res.rule("R-LAYOUT", "box_bounds row i = (lb[i], ub[i])")
     res.rule("R-WIRE", "minimize receives cost, sensitivity of the same object, the caller's start, the bounds, a bounded method")
@@ -76,6 +148,9 @@ def check(repo, res, tier):
         rec = []
         summ = np_summaries(rec)
         summ.pop("zip")
+        # the loss object's own routines are numbers here (their wiring into the optimiser is decided by value in _check_objective)
+        summ.update({"Loss.cost": lambda me_, theta=None, *a_, **k_: 2.5, "Loss.sensitivity": lambda me_, theta=None, *a_, **k_: NumArr([0.5, -0.25, 0.125]),
+                     "Loss.gradient": lambda me_, theta=None, *a_, **k_: NumArr([0.5, -0.25, 0.125]), "Loss.thetaCallBack": lambda me_, *a_, **k_: None})
         me = Obj("Loss", __open__=True)
         ab = Abs({}, {"np.ndarray": lambda v: isinstance(v, NumArr)}, summ, me)
         a = {"x": list(x), "lb": None, "ub": None, "A": None, "b": None, "disp": False, "full_output": False}
@@ -98,10 +173,7 @@ def check(repo, res, tier):
     want = [[lb[i], ub[i]] for i in range(n)]
     res.check(rows == want, "R-LAYOUT", f, "box-bounds", "bounds row i is (lb[i], ub[i])",
               "for lb=%s ub=%s the bounds handed to the optimiser are %s: lower and upper limits are paired with the wrong variables" % (lb, ub, rows), node=f.node)
-    grads = {("method", g) for g in ("sensitivity", "gradient", "adjoint")}     # the documented gradient-of-cost routines of the same object
-    res.check(call.get("fun") == ("method", "cost") and call.get("jac") in grads, "R-WIRE", f, "objective-and-gradient",
-              "objective = self.cost, gradient = a gradient-of-cost routine of the same object (%s)" % (call.get("jac"),),
-              "minimize(fun=%r, jac=%r): objective and gradient do not belong together" % (call.get("fun"), call.get("jac")), node=f.node)
+    _check_objective(repo, res, f)
     res.check(call.get("x0") == x, "R-WIRE", f, "start", "the optimiser starts at the caller's x", "x0=%r" % (call.get("x0"),), node=f.node)
     res.check(call.get("method") in ("L-BFGS-B",), "R-WIRE", f, "method(box)", "box-constrained fit uses L-BFGS-B", "method=%r for a box-constrained fit" % (call.get("method"),), node=f.node)
     res.check(out == Tok("xhat"), "R-WIRE", f, "returns-x", "fit returns the optimiser's x", "fit returns %r" % (out,), node=f.node)
